@@ -231,12 +231,18 @@ def strat_e2e():
     def case(draw):
         lines = []
         y = 60
-        for k in range(draw(st.integers(1, 5))):
+        many = draw(st.integers(0, 7)) == 0         # a page of a dozen regions with a stored reading order
+        for k in range(draw(st.integers(11, 14)) if many else draw(st.integers(1, 5))):
             geom = draw(line_geometry(y=y))
             y += 70
             lines.append(dict(geom=geom, text=draw(text), seed=draw(st.integers(0, 2 ** 31 - 1)),
-                              confuse=draw(st.sampled_from([0.0, 0.3, 0.8]))))
-        return dict(lines=lines, nreg=draw(st.integers(1, 2)), k=draw(st.sampled_from([1, 3, 8])))
+                              confuse=draw(st.sampled_from([0.0, 0.3, 0.8])),
+                              index=draw(st.none() | st.integers(0, 20))))      # stored line indices need not follow the list order
+        nreg = len(lines) if many else draw(st.integers(1, 2))
+        order = None
+        if many or draw(st.integers(0, 3)) == 0:
+            order = list(draw(st.permutations(list(range(nreg)))))
+        return dict(lines=lines, nreg=nreg, k=draw(st.sampled_from([1, 3, 8])), order=order)
     return case()
 
 
@@ -264,7 +270,7 @@ def body_e2e(ctx, case):
     groups = [[] for _ in range(nreg)]
     for n, l in enumerate(case["lines"]):
         lid = ("l%03d" % n) if l["seed"] % 4 else ("id_l%d" % n)        # ids are opaque strings, also when they start with 'id_'
-        line = build_line(lid, l["geom"], l["text"], CHARS, l["seed"], confuse=l["confuse"])
+        line = build_line(lid, l["geom"], l["text"], CHARS, l["seed"], confuse=l["confuse"], index=l.get("index"))
         groups[n % nreg].append(line)
     for r, g in enumerate(groups):
         if not g:
@@ -272,10 +278,19 @@ def body_e2e(ctx, case):
         reg = RegionLayout("r%d" % r, region_polygon_around([x.polygon for x in g]))
         reg.lines = g
         pl.regions.append(reg)
+    if case.get("order") is not None:
+        pl.reading_order = {"r%d" % r: int(pos) for r, pos in enumerate(case["order"]) if any(x.id == "r%d" % r for x in pl.regions)}
+        ctx.event("stored_reading_order")
+        if len(pl.regions) >= 11:
+            ctx.event("more_than_ten_ordered_regions")
     xml = ctx.must("export_raises", pl.to_pagexml_string)
     blob = ctx.must("save_raises", pl.save_logits_bytes)
-    p2 = PageLayout()
-    ctx.must("import_raises", p2.from_pagexml_string, xml)
+    if case["lines"][0]["seed"] % 2:
+        p2 = PageLayout()
+        ctx.must("import_raises", p2.from_pagexml_string, xml)
+    else:       # the way the scripts load a page: straight from the constructor
+        from io import BytesIO
+        p2 = ctx.must("import_raises", lambda: PageLayout(file=BytesIO(xml.encode("utf-8"))))
     ctx.must("load_raises", p2.load_logits, blob)
     desc = lambda: "case=%r" % (case,)
     letters = CHARS[:-1] + [BLANK_SYMBOL]
